@@ -92,7 +92,7 @@ CHECKS = {
     'C10': dict(
         technique='TLA+ spec StoneDefaultsMC (documented compile-time rule CompileLit vs runtime rule StoneRuntime!Accepts; ExampleValue denotation of example declarations) explored by TLC; every state replayed through the compiler and the generated classes',
         text='TLC enumerates 22 field types x 46 default literals and checks DefaultsValid (every literal the documented rule accepts is a '
-             'value the runtime rule accepts), and 340 (type shape, example label) pairs over 10 slot types and checks ExamplesValid (the '
+             'value the runtime rule accepts), and about 450 (type shape, example label) pairs over 12 slot types and checks ExamplesValid (the '
              'denoted value is valid, its document decodes strictly to it and encodes back). Replay: each default is compiled; whatever the '
              'real compiler accepts is read from the unset field of the generated class, compared with the declared default and assigned '
              'back (must be accepted); each computed example (get_examples) must equal the denoted document, decode strictly to the '
